@@ -21,6 +21,8 @@ INTERNAL_TYPES: Dict[str, Dict[str, Any]] = {
     "u8": {"k": "STD", "base": "A_UINT32", "bits": 8},
     "i8": {"k": "STD", "base": "A_INT32", "bits": 8},
     "u16": {"k": "STD", "base": "A_UINT32", "bits": 16},
+    "u64": {"k": "STD", "base": "A_UINT32", "bits": 64},
+    "i64": {"k": "STD", "base": "A_INT32", "bits": 64},
     "f32": {"k": "STD", "base": "A_FLOAT32", "bits": 32},
     "f64": {"k": "STD", "base": "A_FLOAT64", "bits": 64},
     "ascii": {"k": "STD", "base": "A_ASCIISTRING", "bits": 16},
